@@ -163,7 +163,16 @@ func abortHook(kind, detail string) {
 		emit(outRec{T: "note", Property: *flagProp, Seed: curSeed, Class: "harness-watchdog", Detail: detail})
 		os.Exit(2)
 	}
-	emit(outRec{T: "fail", Property: *flagProp, Seed: curSeed, Class: kind, Sig: kind, Detail: detail, Replay: curScenario})
+	if kind == simrt.AbortDeadlock {
+		detail = "no task can run:"
+		for i, s := range simrt.BlockedSites() {
+			if s >= 0 {
+				detail += fmt.Sprintf("\n  task %d is blocked on a mutex at %s", i, siteName(s))
+			}
+		}
+	}
+	emit(outRec{T: "fail", Property: *flagProp, Seed: curSeed, Class: kind, Sig: kind, Detail: detail, Replay: curScenario,
+		Extra: map[string]interface{}{"trace": traceStrings(simrt.Trace(), 60)}})
 	emit(outRec{T: "summary", Property: *flagProp, Summary: &Summary{Stopped: true, Failures: 1, NextSeed: uint64(curIndex + shardN)}})
 	os.Exit(0)
 }
@@ -199,4 +208,10 @@ func raceLogSize() int64 {
 func raceLogText() string {
 	b, _ := os.ReadFile(*flagRaceLog + "." + strconv.Itoa(os.Getpid()))
 	return string(b)
+}
+
+// historyInfo describes how to re-run this worker process up to and including
+// run idx (used when a failing run does not reproduce alone in a fresh process).
+func historyInfo(idx int64) map[string]interface{} {
+	return map[string]interface{}{"prop": *flagProp, "tier": *flagTier, "seed": fmt.Sprint(*flagSeed), "mode": *flagMode, "shard": *flagShard, "from": *flagFrom, "upto": idx + 1}
 }
